@@ -96,7 +96,7 @@ Definition QN (h : Z) (pre post : option context * option Z * option Z) : Prop :
             (exists x', cx' = Some x' /\ x_batch x' = x_batch x + 1 /\ x_state x' = 0 /\ x_rep x' = x_rep x
                         /\ x_timeout x' = x_timeout x /\ x_freq x' = x_freq x /\ x_total x' = x_total x
                         /\ ex' = Some (h + x_timeout x))
-            \/ (exists x', cx' = Some x' /\ x_batch x' = x_batch x /\ x_state x' = 1 /\ ex' = ex)
+            \/ (cx' = Some (cx_state (cx_brun x false) 1) /\ ex' = ex)
           else cx' = Some x /\ ex' = ex)
   end.
 
@@ -124,14 +124,14 @@ Proof.
             ((exists x', get id (ctxs t') = Some x' /\ x_batch x' = x_batch x + 1 /\ x_state x' = 0 /\ x_rep x' = x_rep x
                         /\ x_timeout x' = x_timeout x /\ x_freq x' = x_freq x /\ x_total x' = x_total x
                         /\ get id (expmark t') = Some (height t + x_timeout x))
-             \/ (exists x', get id (ctxs t') = Some x' /\ x_batch x' = x_batch x /\ x_state x' = 1 /\ get id (expmark t') = get id (expmark t)))).
+             \/ (get id (ctxs t') = Some (cx_state (cx_brun x false) 1) /\ get id (expmark t') = get id (expmark t)))).
   { cbv zeta. simpl. rewrite get_del_same, !get_set_same. split; [reflexivity|]. left. eexists. split; [reflexivity|]. simpl. repeat split; assumption. }
   destruct (filter_provs t x (x_provs x)) as [ps|]; [|exact Skip].
   cbv zeta. destruct (_ && _); [|exact Skip].
   destruct (debit_all _ _ _) as [l|].
   - simpl. rewrite get_del_same, !get_set_same. split; [reflexivity|]. left. eexists. split; [reflexivity|]. simpl. repeat split; assumption.
   - split; [unfold on_paused; destruct (x_mod x); simpl; apply get_del_same|]. right.
-    exists (cx_state (cx_brun x false) 1). unfold on_paused. destruct (x_mod x); simpl; rewrite get_set_same; repeat split; reflexivity.
+    unfold on_paused. destruct (x_mod x); simpl; rewrite get_set_same; split; reflexivity.
 Qed.
 
 Lemma expired_handler_height c t id : height (expired_batch_handler c t id) = height t.
@@ -191,3 +191,226 @@ Proof.
     + apply (proj1 (eqb_true_iff _ _)) in Ee. apply F1. apply due_in. rewrite Hh1. exact (q_mark_new _ Q1 _ _ Ee).
     + apply F2. intros Hin. apply due_in in Hin. rewrite Hh1 in Hin. rewrite (q_new_mark _ Q1 _ _ Hin), eqb_refl in Ee. discriminate.
 Qed.
+
+(** ** a repeated context's frequency is at least its timeout; batch counters are non-negative *)
+Definition fb_ok (x : context) : Prop := 0 <= x_batch x /\ (x_rep x = true -> x_timeout x <= x_freq x).
+Definition FB (s : state) : Prop := forall id x, get id (ctxs s) = Some x -> fb_ok x.
+
+Lemma FB_same s t : ctxs t = ctxs s -> FB s -> FB t.
+Proof. intros E H. unfold FB. rewrite E. exact H. Qed.
+
+Lemma FB_upd s t id :
+  FB s -> (forall id0, id0 <> id -> get id0 (ctxs t) = get id0 (ctxs s)) ->
+  (forall x', get id (ctxs t) = Some x' -> fb_ok x') -> FB t.
+Proof.
+  intros H Hoth Hid id0 x Hg. destruct (eq_dec id0 id) as [->|Hne]; [exact (Hid x Hg)|]. rewrite (Hoth id0 Hne) in Hg. exact (H id0 x Hg).
+Qed.
+
+Ltac fb_oth Hne := simpl; rewrite ?get_del_other, ?get_set_other by exact Hne; reflexivity.
+
+Lemma validate_ft provs cons inok capa timeout rep freq total :
+  validate_request provs cons inok capa timeout rep freq total = true -> rep = true ->
+  0 < timeout /\ (freq = 0 \/ timeout <= freq) /\ 0 <= freq.
+Proof.
+  unfold validate_request. intros H ->. cbn [negb orb] in H. rewrite !andb_true_iff in H.
+  destruct H as (((_ & Ht) & Hf) & ((Hr & _) & _)).
+  apply Z.ltb_lt in Ht. apply Z.leb_le in Hf. split; [exact Ht|]. split; [|exact Hf].
+  apply orb_true_iff in Hr. destruct Hr as [Hr|Hr].
+  - apply negb_true_iff, Z.ltb_ge in Hr. left. lia.
+  - apply Z.leb_le in Hr. right. exact Hr.
+Qed.
+
+Lemma FB_create c s txh svc provs cons inok capd capa timeout rep freq total st thr md s' id :
+  create_context c s txh svc provs cons inok capd capa timeout rep freq total st thr md = Some (s', id) ->
+  (rep = true -> freq = 0 \/ timeout <= freq) -> FB s -> FB s'.
+Proof.
+  intros H Hv Hn. unfold create_context in H. repeat dmn H; inversion H; subst; clear H;
+    (eapply (FB_upd s _ (txh, iidx s)); [exact Hn|intros id0 Hne; fb_oth Hne|]);
+    intros x' Hg; simpl in Hg; rewrite get_set_same in Hg; inversion Hg; subst; unfold fb_ok; simpl; (split; [lia|]);
+    intros Hr; try discriminate Hr; destruct (Hv eq_refl) as [->|Hle]; simpl; try lia; destruct (freq =? 0) eqn:E0; try lia; apply Z.eqb_eq in E0; lia.
+Qed.
+
+Lemma FB_keep s t id x :
+  FB s -> get id (ctxs s) = Some x -> (forall id0, id0 <> id -> get id0 (ctxs t) = get id0 (ctxs s)) ->
+  (forall x', get id (ctxs t) = Some x' -> 0 <= x_batch x' /\ x_rep x' = x_rep x /\ x_timeout x' = x_timeout x /\ x_freq x' = x_freq x) -> FB t.
+Proof.
+  intros Hn Hg Hoth Hid. apply (FB_upd s t id Hn Hoth). intros x' Hg'. destruct (Hid x' Hg') as (A & B & C & D).
+  destruct (Hn id x Hg) as (_ & F). split; [exact A|]. rewrite B, C, D. exact F.
+Qed.
+
+Lemma FB_respond c s rid prov kind s' : respond c s rid prov kind = Okk s' -> FB s -> FB s'.
+Proof.
+  intros H Hn. unfold respond in H. destruct rid as [[[id batch] hh] ii].
+  destruct ((0 <=? prov) && negb (kind =? 2)); cbv beta iota zeta delta [negb] in H; [|discriminate].
+  match type of H with context [@get reqid request ?i ?k (reqs s)] =>
+    destruct (@get reqid request i k (reqs s)) as [q|] eqn:Eq end; [|discriminate].
+  destruct (get id (ctxs s)) as [x|] eqn:Ex; [|discriminate].
+  destruct (q_prov q =? prov) eqn:Ep; cbv beta iota zeta delta [negb] in H; [|discriminate].
+  destruct (q_active q); cbv beta iota zeta delta [negb] in H; [|discriminate].
+  destruct (add_earned_fee c s prov (q_fd q) (q_fee q)) as [s1|] eqn:Ef; [|discriminate].
+  assert (F5 : ctxs s1 = ctxs s).
+  { unfold add_earned_fee in Ef. destruct (send _ _ _ _ _); [|discriminate].
+    destruct (q_fee q <? _); [discriminate|]. inversion Ef; subst. reflexivity. }
+  pose proof (proj1 (Hn id x Ex)) as Hb0.
+  destruct (x_bresp (cx_bresp x (x_bresp x + 1)) =? x_breq (cx_bresp x (x_bresp x + 1)));
+    [destruct (x_mod (cx_bresp x (x_bresp x + 1)))|]; inversion H; subst s'; clear H;
+    (eapply (FB_keep s _ id x Hn Ex);
+      [intros id0 Hne; simpl; try (unfold callback; simpl; rewrite F5, Ex; simpl); rewrite ?F5; rewrite ?get_set_other by exact Hne; reflexivity
+      |intros x' Hg; simpl in Hg; try (unfold callback in Hg; simpl in Hg; rewrite F5, Ex in Hg; simpl in Hg); rewrite get_set_same in Hg; inversion Hg; subst x'; simpl;
+       repeat split; try reflexivity; exact Hb0]).
+Qed.
+
+Lemma FB_ctl_state s id x v t : FB s -> get id (ctxs s) = Some x -> ctxs t = set id (cx_state x v) (ctxs s) -> FB t.
+Proof.
+  intros Hn Hg E. eapply (FB_keep s t id x Hn Hg).
+  - intros id0 Hne. rewrite E. apply get_set_other. exact Hne.
+  - intros x' Hg'. rewrite E, get_set_same in Hg'. inversion Hg'; subst. simpl. repeat split; try reflexivity. exact (proj1 (Hn id x Hg)).
+Qed.
+
+Lemma FB_pause s id cons s' : k_pause s id cons = Okk s' -> FB s -> FB s'.
+Proof.
+  intros H Hn. unfold k_pause in H. destruct (get id (ctxs s)) as [x|] eqn:Ex; [|discriminate].
+  repeat dmn H. inversion H; subst. eapply (FB_ctl_state s id x 1); [exact Hn|exact Ex|reflexivity].
+Qed.
+Lemma FB_kill s id cons s' : k_kill s id cons = Okk s' -> FB s -> FB s'.
+Proof.
+  intros H Hn. unfold k_kill in H. destruct (get id (ctxs s)) as [x|] eqn:Ex; [|discriminate].
+  repeat dmn H. inversion H; subst. eapply (FB_ctl_state s id x 2); [exact Hn|exact Ex|reflexivity].
+Qed.
+Lemma FB_start s id cons s' : k_start s id cons = Okk s' -> FB s -> FB s'.
+Proof.
+  intros H Hn. unfold k_start in H. destruct (get id (ctxs s)) as [x|] eqn:Ex; [|discriminate].
+  destruct (x_mod x && _); [discriminate|]. destruct (negb (x_state x =? 1)); [discriminate|]. inversion H; subst; clear H.
+  eapply (FB_ctl_state s id x 0); [exact Hn|exact Ex|]. destruct (negb _ && negb _); reflexivity.
+Qed.
+
+Lemma FB_update_context c s id provs capd capa timeout freq total cons s' :
+  update_context c s id provs capd capa timeout freq total cons = Okk s' -> FB s -> FB s'.
+Proof.
+  intros H Hn. unfold update_context in H. destruct (negb _) eqn:Ev; [discriminate|]. destruct (negb (check_authority s cons id true)); [discriminate|].
+  destruct (get id (ctxs s)) as [x|] eqn:Ex; [|discriminate].
+  repeat match type of H with (if ?g then Rejj else _) = _ => let E := fresh "E" in destruct g eqn:E; [discriminate|] end.
+  cbv zeta in H.
+  repeat match type of H with (if ?g then Rejj else _) = _ => let E := fresh "E" in destruct g eqn:E; [discriminate|] end.
+  match goal with Hx : ((if freq =? 0 then _ else _) <? _) = false |- _ => rename Hx into Eft end.
+  inversion H; subst; clear H.
+  apply negb_false_iff in Ev. rewrite !andb_true_iff in Ev.
+  destruct Ev as ((((_ & Ht0) & Hf0) & _) & _). apply Z.leb_le in Ht0. apply Z.leb_le in Hf0. apply Z.ltb_ge in Eft.
+  destruct (Hn id x Ex) as (Hb & Hft).
+  eapply (FB_upd s _ id Hn); [intros id0 Hne; fb_oth Hne|].
+  intros x' Hg. simpl in Hg. rewrite get_set_same in Hg. inversion Hg; subst; clear Hg. unfold fb_ok.
+  assert (Xt : x_timeout (if capa =? 0 then x else cx_cap x capa) = x_timeout x) by (destruct (capa =? 0); reflexivity).
+  assert (Xf : x_freq (if capa =? 0 then x else cx_cap x capa) = x_freq x) by (destruct (capa =? 0); reflexivity).
+  rewrite Xt, Xf in *.
+  destruct (timeout =? 0) eqn:T0; destruct (freq =? 0) eqn:F0;
+    repeat match goal with |- context [if ?b then _ else _] => destruct b eqn:? end;
+    repeat match goal with |- context [match ?b with [] => _ | _ :: _ => _ end] => destruct b end;
+    simpl; (split; [exact Hb|]); intros Hr; specialize (Hft Hr);
+    repeat match goal with
+    | Hx : (_ <? _) = true |- _ => apply Z.ltb_lt in Hx
+    | Hx : (_ <? _) = false |- _ => apply Z.ltb_ge in Hx
+    | Hx : (_ =? _) = true |- _ => apply Z.eqb_eq in Hx
+    | Hx : (_ =? _) = false |- _ => apply Z.eqb_neq in Hx end; simpl in *; lia.
+Qed.
+
+Lemma FB_create_mod c s txh svc provs cons inok capd capa timeout rep freq total st thr s' id :
+  create_context c s txh svc provs cons inok capd capa timeout rep freq total st thr true = Some (s', id) -> FB s -> FB s'.
+Proof.
+  intros H Hn. eapply FB_create; [exact H| |exact Hn]. intros Hr.
+  unfold create_context in H. destruct (validate_request provs cons inok capa timeout rep freq total) eqn:V.
+  - destruct (validate_ft _ _ _ _ _ _ _ _ V Hr) as (_ & A & _). exact A.
+  - cbn [andb negb] in H. discriminate H.
+Qed.
+
+Ltac fb_same H := repeat dmn H; inversion H; subst; clear H; apply FB_same; reflexivity.
+
+Lemma FB_exec_msg_plain c s txh m s' : exec_msg_plain c s txh m = Okk s' -> FB s -> FB s'.
+Proof.
+  intros H Hn. destruct m; simpl in H.
+  - unfold define in H. revert Hn. fb_same H.
+  - unfold bind in H. revert Hn. fb_same H.
+  - unfold update_binding in H. revert Hn. fb_same H.
+  - unfold set_withdraw in H. revert Hn. fb_same H.
+  - unfold enable in H. revert Hn. fb_same H.
+  - unfold disable in H. revert Hn. fb_same H.
+  - unfold refund_deposit in H. revert Hn. fb_same H.
+  - unfold call in H. destruct (validate_request provs cons inok capa timeout rep freq total) eqn:V; cbn [negb] in H; [|discriminate].
+    destruct (create_context _ _ _ _ _ _ _ _ _ _ _ _ _ _ _ _) as [[s1 id]|] eqn:E; [|discriminate].
+    inversion H; subst. eapply FB_create; [exact E| |exact Hn]. intros Hr. exact (proj1 (proj2 (validate_ft _ _ _ _ _ _ _ _ V Hr))).
+  - eapply FB_respond; eassumption.
+  - unfold msg_ctl in H. repeat (destruct (negb _); [discriminate|]). eapply FB_pause; eassumption.
+  - unfold msg_ctl in H. repeat (destruct (negb _); [discriminate|]). eapply FB_start; eassumption.
+  - unfold msg_ctl in H. repeat (destruct (negb _); [discriminate|]). eapply FB_kill; eassumption.
+  - eapply FB_update_context; eassumption.
+  - unfold withdraw in H. revert Hn. fb_same H.
+Qed.
+
+Lemma FB_call_module c s txh svc provs cons inok capd capa timeout rep freq total s' :
+  call_module c s txh svc provs cons inok capd capa timeout rep freq total = Okk s' -> FB s -> FB s'.
+Proof.
+  intros H Hn.
+  destruct (call_module_shape _ _ _ _ _ _ _ _ _ _ _ _ _ _ H) as (s1 & id & x & q' & E1 & _ & Ex & _ & Xb & _ & _ & C & _).
+  assert (N1 : FB s1) by (eapply FB_create; [exact E1|intros Hr; discriminate Hr|exact Hn]).
+  eapply (FB_upd s1 s' id N1).
+  - intros id0 Hne. rewrite C. apply get_set_other. exact Hne.
+  - intros x' Hg. rewrite C, get_set_same in Hg. inversion Hg; subst. destruct (N1 id x Ex) as (A & B). split; simpl; assumption.
+Qed.
+
+Lemma FB_exec_msg c s txh m s' : exec_msg c s txh m = Okk s' -> FB s -> FB s'.
+Proof.
+  intros H Hn. destruct m; cbn [exec_msg] in H; try (eapply FB_exec_msg_plain; eassumption).
+  - destruct (module_served c svc); [discriminate|].
+    eapply (FB_exec_msg_plain c s txh (MBind svc prov depd depa pr qos optok owner)); eassumption.
+  - destruct (module_served c svc); [eapply FB_call_module; eassumption|].
+    eapply (FB_exec_msg_plain c s txh (MCall svc provs cons inok capd capa timeout rep freq total)); eassumption.
+Qed.
+
+Lemma fb_ok_off x : fb_ok x -> fb_ok (x_off x).
+Proof. unfold x_off. destruct (x_brun x); intros H; exact H. Qed.
+
+Lemma FB_expired_handler c t id : FB t -> FB (expired_batch_handler c t id).
+Proof.
+  intros Hn id0 x0 Hg. pose proof (expired_handler_loc_own c t id) as Q. pose proof (expired_handler_loc_other c t id0 id) as O.
+  unfold loc in Q, O. destruct (eq_dec id0 id) as [->|Hne].
+  - unfold QE in Q. destruct (get id (ctxs t)) as [x|] eqn:Ex.
+    + destruct Q as (_ & Q). rewrite Hg in Q. pose proof (fb_ok_off x (Hn id x Ex)) as Hx.
+      destruct (x_state x =? 2); [destruct Q; discriminate|]. destruct (x_state x =? 0); [destruct (belowb x)|]; destruct Q as (Q & _); try discriminate; inversion Q; subst; exact Hx.
+    + inversion Q as [[Q1 Q2 Q3]]. rewrite Hg in Q1. discriminate.
+  - assert (Hne' : id <> id0) by congruence. specialize (O Hne'). inversion O as [[O1 O2 O3]]. rewrite Hg in O1. exact (Hn id0 x0 (eq_sym O1)).
+Qed.
+
+Lemma FB_new_handler t id : FB t -> FB (new_batch_handler t id).
+Proof.
+  intros Hn id0 x0 Hg. pose proof (new_handler_loc_own t id) as Q. pose proof (new_handler_loc_other t id0 id) as O.
+  unfold loc in Q, O. destruct (eq_dec id0 id) as [->|Hne].
+  - unfold QN in Q. destruct (get id (ctxs t)) as [x|] eqn:Ex.
+    + destruct Q as (_ & Q). rewrite Hg in Q. destruct (Hn id x Ex) as (A & B).
+      destruct (x_state x =? 0).
+      * destruct Q as [(x' & E & Eb & _ & Er & Et & Ef & _)|(E & _)]; inversion E; subst.
+        -- split; [lia|]. rewrite Er, Et, Ef. exact B.
+        -- split; simpl; assumption.
+      * destruct Q as (Q & _). inversion Q; subst. split; assumption.
+    + inversion Q as [[Q1 Q2 Q3]]. rewrite Hg in Q1. discriminate.
+  - assert (Hne' : id <> id0) by congruence. specialize (O Hne'). inversion O as [[O1 O2 O3]]. rewrite Hg in O1. exact (Hn id0 x0 (eq_sym O1)).
+Qed.
+
+Lemma FB_apply c s st : FB s -> FB (apply c s st).
+Proof.
+  intros Hn. unfold apply. destruct (exec_step c s st) as [s'| |] eqn:E; try exact Hn.
+  destruct st; cbn [exec_step] in E.
+  - eapply FB_exec_msg; eassumption.
+  - destruct (0 <=? dt); [|discriminate]. inversion E; subst. unfold end_block. cbv zeta.
+    eapply FB_same; [reflexivity|]. apply fold_left_inv; [intros; apply FB_new_handler; assumption|].
+    apply fold_left_inv; [intros; apply FB_expired_handler; assumption|exact Hn].
+  - inversion E; subst. eapply FB_same; [|exact Hn]. reflexivity.
+  - revert Hn. fb_same E.
+  - destruct (create_context _ _ _ _ _ _ _ _ _ _ _ _ _ _ _ _) as [[s1 id]|] eqn:E1; [|discriminate].
+    inversion E; subst. eapply FB_create_mod; eassumption.
+  - eapply FB_pause; eassumption.
+  - eapply FB_start; eassumption.
+  - eapply FB_kill; eassumption.
+  - unfold bind in E. revert Hn. fb_same E.
+Qed.
+
+Lemma reach_FB c steps h0 t0 l0 : FB (run c (init h0 t0 l0) steps).
+Proof. apply run_inv; [intros; apply FB_apply; assumption|]. intros id x Hg. simpl in Hg. discriminate. Qed.
